@@ -28,6 +28,7 @@ TEMPORALS = [datetime.date(2020, 1, 2), datetime.datetime(2020, 1, 2, 3, 4, 5), 
 UNSUPPORTED = {"set": lambda: {1, 2}, "bytes": lambda: b"ab", "complex": lambda: 1j, "object": lambda: object(),
                "frozenset": lambda: frozenset([1])}
 _dc_cache = {}
+_nt_cache = {}
 
 
 def make_dc(names):
@@ -69,6 +70,12 @@ def dec(j):
     if t == "dc":
         cls = make_dc([n for (n, _) in v])
         return cls(*[dec(x) for (_, x) in v])
+    if t == "nt":
+        import collections
+        names = tuple(n for (n, _) in v)
+        if names not in _nt_cache:
+            _nt_cache[names] = collections.namedtuple("NT_" + "_".join(names) if names else "NT_empty", list(names))
+        return _nt_cache[names](*[dec(x) for (_, x) in v])
     if t == "temporal":
         return TEMPORALS[j["idx"]]
     if t == "ppath":
@@ -142,7 +149,9 @@ def containers(elems, keys, full):
     """containers over the given element encodings (one level)"""
     out = []
     small = elems if full else elems[:14]
-    out += [jv("list", []), jv("tuple", []), jv("dict", []), jv("odict", []), jv("dc", [])]
+    out += [jv("list", []), jv("tuple", []), jv("dict", []), jv("odict", []), jv("dc", []), jv("nt", [])]
+    for e in elems[:40]:
+        out.append(jv("nt", [["k", e]]))
     for e in elems:
         out.append(jv("list", [e]))
         out.append(jv("tuple", [e]))
@@ -157,13 +166,15 @@ def containers(elems, keys, full):
         out.append(jv("tuple", [x, y]))
         out.append(jv("dict", [[keys[0], x], [keys[3], y]]))
         out.append(jv("dc", [["k", x], ["a", y]]))
+        out.append(jv("nt", [["k", x], ["a", y]]))
+        out.append(jv("odict", [[keys[0], x], [keys[3], y]]))
     return out
 
 
 def random_value(rng, depth):
     if depth <= 0 or rng.random() < 0.3:
         return rng.choice(_ATOMS)
-    kind = rng.choice(["list", "tuple", "dict", "odict", "dc", "list", "list"])
+    kind = rng.choice(["list", "tuple", "dict", "odict", "dc", "list", "list", "nt"])
     n = rng.choice([0, 1, 1, 2, 2, 3, 5])
     if kind in ("list", "tuple"):
         return jv(kind, [random_value(rng, depth - 1) for _ in range(n)])
@@ -171,7 +182,7 @@ def random_value(rng, depth):
         ks = rng.sample([jv("str", s) for s in ["k", "a", "b", "", "kk", "|"]] + [jv("int", "1"), jv("int", "2")], n)
         return jv(kind, [[k, random_value(rng, depth - 1)] for k in ks])
     names = rng.sample(["k", "a", "b", "x", "y", "zz"], n)
-    return jv("dc", [[nm, random_value(rng, depth - 1)] for nm in names])
+    return jv(kind, [[nm, random_value(rng, depth - 1)] for nm in names])
 
 
 _ATOMS = atoms()
@@ -199,6 +210,8 @@ def rewrite(j, rules):
         return _bytes_val(struct.pack("!Q", int(v)), j)
     if t in ("list", "tuple"):
         xs = [rewrite(x, rules) for x in v]
+    elif t == "nt":
+        xs = [rewrite(x, rules) for (_, x) in v]
     elif t in ("dict", "odict"):
         if "dict" not in rules:
             return jv(t, [[rewrite(k, rules), rewrite(x, rules)] for (k, x) in v])
@@ -244,6 +257,9 @@ def canon(j, rules=()):
         return ("u", v)
     if t in ("list", "tuple"):
         return ("l", tuple(canon(x) for x in v))
+    if t == "nt":
+        # a named tuple is a tuple: the names of its fields are not part of the value (list = tuple)
+        return ("l", tuple(canon(x) for (_, x) in v))
     if t in ("dict", "odict"):
         return ("d", tuple((canon(k), canon(x)) for (k, x) in v))
     if t == "dc":
@@ -258,6 +274,20 @@ def classify(a, b):
             if canon(a, rs) == canon(b, rs):
                 return rs
     return None
+
+
+def to_model(j):
+    """the value as the model knows it: a named tuple is a tuple"""
+    t, v = j["t"], j.get("v")
+    if t == "nt":
+        return jv("tuple", [to_model(x) for (_, x) in v])
+    if t in ("list", "tuple"):
+        return jv(t, [to_model(x) for x in v])
+    if t in ("dict", "odict"):
+        return jv(t, [[to_model(k), to_model(x)] for (k, x) in v])
+    if t == "dc":
+        return jv(t, [[n, to_model(x)] for (n, x) in v])
+    return j
 
 
 def impl_hash(dds_hash, DDSException, j):
@@ -332,7 +362,7 @@ def run(ctx):
     maxlen = int(cfg.get_option("hash.max_sequence_size"))
     strata = [(maxlen, vals)]
     # second stratum: a small max_sequence_size so that SEQUENCE_TOO_LONG is reachable
-    strata.append((2, [j for j in vals if j["t"] in ("list", "tuple", "dict", "odict", "dc")][:1500]))
+    strata.append((2, [j for j in vals if j["t"] in ("list", "tuple", "dict", "odict", "dc", "nt")][:1500]))
 
     for (mx, vs) in strata:
         cfg.set_option("hash.max_sequence_size", mx)
@@ -343,7 +373,7 @@ def run(ctx):
         model = None
         if ctx["driver_ok"]:
             try:
-                model = common.drv_batch([{"op": "hash", "v": j, "max": mx} for j in vs])
+                model = common.drv_batch([{"op": "hash", "v": to_model(j), "max": mx} for j in vs])
             except common.DriverUnavailable as e:
                 res.disagreements.append({"what": "driver unavailable", "detail": str(e)})
         by_hash = {}
@@ -408,7 +438,7 @@ def run(ctx):
         ra, rb = impl_hash(dds_hash, DDSException, a), impl_hash(dds_hash, DDSException, b)
         res.kf_replayed[fid] = (ra[0] == "ok" and ra == rb)
     res.rule = ("alphabet of %d atoms (boundary ints, signed zeros, nan/inf, empty/separator/sentinel/digest-like strings, "
-                "dates, paths, unsupported types) closed under list/tuple/dict/OrderedDict/dataclass to depth 2%s, plus %d "
+                "dates, paths, unsupported types) closed under list/tuple/named tuple/dict/OrderedDict/dataclass to depth 2%s, plus %d "
                 "seeded random values to depth 4; max_sequence_size in {default, 2}; a case is non-trivial/distinct by its "
                 "canonical form (model canonKF) or error kind" % (len(A), " (wider at depth 2)" if thorough else "", nrand))
     # dedupe violations by (kf / input)
